@@ -202,7 +202,8 @@ def run(ctx):
         # dialect index: position() in the client's list
         di = at.get(1)
         dv = le_value(di) if di else None
-        okd = dv is not None and calls_in(dv, r'Iterator>::position$|Iterator::position$') != [] and 'dialects' in short(dv)
+        pos = deep_calls(F, f, dv, r'Iterator>::position$|Iterator::position$') if dv is not None else []
+        okd = bool(pos) and all(recv is not None and 'dialects' in short(recv) for (_, recv) in pos)
         rep.check(r3, okd, 'smb1-negotiate:dialect-index', 'DialectIndex <- %s' % (short(dv)[:110] if dv else None), di['loc'] if di else '')
     else:
         rep.bad(r2, 'smb1-negotiate:blob', 'security blob append not found')
